@@ -246,9 +246,12 @@ type Render struct {
 	FormatSep    string // ", " or ","
 	StrikeOutCap bool   // spell the column "StrikeOut" (as Aegisub/ffmpeg do)
 	Hours2       bool   // HH:MM:SS.cc instead of H:MM:SS.cc
-	Radix        int    // 0 &H%08X, 1 &H%08x, 2 &H%06X when alpha is 0, 3 signed decimal, 4 unsigned decimal
+	Radix        int    // 0 &H%08X, 1 &H%08x, 2 &H%06X when alpha is 0, 3 signed decimal, 4 unsigned decimal, 5 &H%X (no leading zeros)
 	MarginPad    bool   // 4-digit margins ("0000")
-	FloatForm    int    // 0 shortest, 1 three decimals
+	FloatForm    int    // 0 shortest, 1 three decimals, 2 at least one decimal ("20.0")
+	StylePad     bool   // 4-digit style margins ("0010"; non-negative values only)
+	KVSep        int    // between "Key:" and its content: 0 one blank, 1 nothing, 2 two blanks
+	TrailBlank   int    // after every non-empty line: 0 nothing, 1 a blank, 2 a tab
 	Breaks       int    // 0 \N, 1 \n, 2 alternating
 	JunkInfo     int
 	JunkStyles   int
@@ -307,19 +310,26 @@ func fmtColor(c Color, radix int) string {
 		return strconv.FormatInt(int64(int32(v)), 10)
 	case 4:
 		return strconv.FormatUint(uint64(v), 10)
+	case 5:
+		return fmt.Sprintf("&H%X", v)
 	}
 	return fmt.Sprintf("&H%08X", v)
 }
 
 func fmtFloat(f float64, form int) string {
-	if form == 1 {
+	switch form {
+	case 1:
 		return strconv.FormatFloat(f, 'f', 3, 64)
+	case 2:
+		if s := strconv.FormatFloat(f, 'f', -1, 64); !strings.Contains(s, ".") {
+			return s + ".0"
+		}
 	}
 	return strconv.FormatFloat(f, 'f', -1, 64)
 }
 
 func fmtMargin(m int, pad bool) string {
-	if pad {
+	if pad && m >= 0 {
 		return fmt.Sprintf("%04d", m)
 	}
 	return strconv.Itoa(m)
@@ -343,6 +353,17 @@ func (d Doc) eventColName(c string) string {
 		return "Marked"
 	}
 	return c
+}
+
+// kv joins a line's key and content with the rendering's separator.
+func kv(key, content string, r Render) string {
+	switch r.KVSep {
+	case 1:
+		return key + ":" + content
+	case 2:
+		return key + ":  " + content
+	}
+	return key + ": " + content
 }
 
 func secName(s string, r Render) string {
@@ -405,7 +426,7 @@ func (d Doc) eventRow(kind string, e Event, cols []string, r Render) string {
 		}
 	}
 	cells = append(cells, textOf(e, r))
-	return kind + ": " + strings.Join(cells, ",")
+	return kv(kind, strings.Join(cells, ","), r)
 }
 
 // Bytes renders the document.
@@ -448,12 +469,12 @@ func (d Doc) Bytes(r Render) []byte {
 	var fl []string
 	for _, k := range InfoStrFields {
 		if v := d.Info.Str[k]; v != "" {
-			fl = append(fl, k+": "+v)
+			fl = append(fl, kv(k, v, r))
 		}
 	}
 	for _, k := range InfoIntFields {
 		if v, ok := d.Info.Int[k]; ok {
-			fl = append(fl, k+": "+strconv.Itoa(v))
+			fl = append(fl, kv(k, strconv.Itoa(v), r))
 		}
 	}
 	if d.Info.Timer != nil {
@@ -466,7 +487,7 @@ func (d Doc) Bytes(r Render) []byte {
 		default:
 			t = strings.Replace(strconv.FormatFloat(*d.Info.Timer, 'f', -1, 64), ".", ",", 1)
 		}
-		fl = append(fl, "Timer: "+t)
+		fl = append(fl, kv("Timer", t, r))
 	}
 	if r.InfoReverse {
 		for i, j := 0, len(fl)-1; i < j; i, j = i+1, j-1 {
@@ -482,6 +503,14 @@ func (d Doc) Bytes(r Render) []byte {
 		fl = append([]string{"Audio URI: a:b.wav"}, fl...)
 	case 4:
 		fl = append(fl, "Not understood line")
+	case 5:
+		// a known text field with empty content denotes the same as its absence
+		for _, k := range InfoStrFields {
+			if d.Info.Str[k] == "" && k != "ScriptType" {
+				fl = append([]string{kv(k, "", r)}, fl...)
+				break
+			}
+		}
 	}
 	if r.CommentsLast {
 		lines = append(append(lines, fl...), cl...)
@@ -508,7 +537,7 @@ func (d Doc) Bytes(r Render) []byte {
 		for _, k := range r.StyleOrder {
 			names = append(names, d.styleColName(cols[k], r))
 		}
-		lines = append(lines, "Format: "+strings.Join(names, r.FormatSep))
+		lines = append(lines, kv("Format", strings.Join(names, r.FormatSep), r))
 		if r.JunkStyles == 1 {
 			lines = append(lines, "Not understood line")
 		}
@@ -532,12 +561,16 @@ func (d Doc) Bytes(r Render) []byte {
 				case "f":
 					cells = append(cells, fmtFloat(v.F, r.FloatForm))
 				case "i":
-					cells = append(cells, strconv.Itoa(v.I))
+					if strings.HasPrefix(cols[k], "Margin") {
+						cells = append(cells, fmtMargin(v.I, r.StylePad))
+					} else {
+						cells = append(cells, strconv.Itoa(v.I))
+					}
 				default:
 					cells = append(cells, v.S)
 				}
 			}
-			lines = append(lines, "Style: "+strings.Join(cells, ","))
+			lines = append(lines, kv("Style", strings.Join(cells, ","), r))
 		}
 		if r.JunkStyles == 2 {
 			lines = append(lines, "Not understood line")
@@ -555,7 +588,7 @@ func (d Doc) Bytes(r Render) []byte {
 		names = append(names, d.eventColName(ecols[k]))
 	}
 	names = append(names, "Text")
-	lines = append(lines, "Format: "+strings.Join(names, r.FormatSep))
+	lines = append(lines, kv("Format", strings.Join(names, r.FormatSep), r))
 	switch r.JunkEvents {
 	case 1:
 		lines = append(lines, "Not understood line")
@@ -594,6 +627,14 @@ func (d Doc) Bytes(r Render) []byte {
 	}
 	for i, l := range lines {
 		out.WriteString(l)
+		if l != "" {
+			switch r.TrailBlank {
+			case 1:
+				out.WriteString(" ")
+			case 2:
+				out.WriteString("\t")
+			}
+		}
 		if i < len(lines)-1 || !r.NoFinalEOL {
 			out.WriteString(r.EOL)
 		}
